@@ -4,9 +4,11 @@ import (
 	"fmt"
 
 	"github.com/ethereum/go-ethereum/common"
+	"github.com/ethereum/go-ethereum/crypto"
 	"github.com/ethereum/go-ethereum/trie"
-	tk "verif/harness/triekit"
+	"github.com/ethereum/go-ethereum/trie/trienode"
 	tl "verif/harness/tracelib"
+	tk "verif/harness/triekit"
 )
 
 type nodeInfo struct {
@@ -45,7 +47,46 @@ func randVal(e *env) int {
 	return size*10 + e.r.Intn(10)
 }
 
-func listing(tr *trie.Trie) (root string, nodes []nodeInfo, leaves int, err error) {
+// rtrie is what the recorder drives: trie.Trie directly, or trie.StateTrie (keys hashed
+// with Keccak-256 by the wrapper; the model key is the hash's nibbles).
+type rtrie interface {
+	Update(key, value []byte) error
+	Delete(key []byte) error
+	Get(key []byte) ([]byte, error)
+	UpdateBatch(keys, values [][]byte) error
+	Hash() common.Hash
+	NodeIterator(start []byte) (trie.NodeIterator, error)
+	Commit(collectLeaf bool) (common.Hash, *trienode.NodeSet)
+}
+
+type secure struct{ *trie.StateTrie }
+
+func (s secure) Update(k, v []byte) error {
+	if len(v) == 0 {
+		s.MustDelete(k)
+	} else {
+		s.MustUpdate(k, v)
+	}
+	return nil
+}
+func (s secure) Delete(k []byte) error        { s.MustDelete(k); return nil }
+func (s secure) Get(k []byte) ([]byte, error) { return s.MustGet(k), nil }
+func (s secure) UpdateBatch(keys, values [][]byte) error {
+	for i := range keys {
+		s.Update(keys[i], values[i])
+	}
+	return nil
+}
+
+func open(root common.Hash, store *tk.PathStore, sec bool) (rtrie, error) {
+	if sec {
+		st, err := trie.NewStateTrie(trie.TrieID(root), store)
+		return secure{st}, err
+	}
+	return trie.New(trie.TrieID(root), store)
+}
+
+func listing(tr rtrie) (root string, nodes []nodeInfo, leaves int, err error) {
 	root = tr.Hash().Hex()
 	it, err := tr.NodeIterator(nil)
 	if err != nil {
@@ -73,7 +114,28 @@ func runRecord(e *env, path string, n, steps int) {
 	for t := 0; t < n; t++ {
 		pool := keyPool(e, 6+e.r.Intn(30))
 		store := tk.NewPathStore()
-		real := trie.NewEmpty(store)
+		// every third trace drives the secure-trie wrapper: real key = a short preimage, model
+		// key = nibbles of its Keccak-256 hash
+		sec := e.r.Intn(3) == 0
+		pre := map[string][]byte{}
+		if sec {
+			for i := range pool {
+				p := []byte(fmt.Sprintf("key-%d-%d", t, i))
+				pool[i] = tk.KeyNibs(crypto.Keccak256(p), 0)
+				pre[fmt.Sprint(pool[i])] = p
+			}
+			e.sum.Count("secure-trie-traces")
+		}
+		rk := func(k []int) []byte {
+			if sec {
+				return pre[fmt.Sprint(k)]
+			}
+			return tk.KeyBytes(k, 0)
+		}
+		real, err0 := open(tk.EmptyRoot, store, sec)
+		if err0 != nil {
+			tl.Fatal("open: %v", err0)
+		}
 		tr.Emit(tl.M{"op": "reset"})
 		shape := ""
 		for s := 0; s < steps; s++ {
@@ -82,21 +144,23 @@ func runRecord(e *env, path string, n, steps int) {
 			switch c := e.r.Intn(10); {
 			case c < 4:
 				k, v := pool[e.r.Intn(len(pool))], randVal(e)
-				err = real.Update(tk.KeyBytes(k, 0), tk.ValBytes(v))
+				err = real.Update(rk(k), tk.ValBytes(v))
 				ev["op"], ev["k"], ev["v"] = "put", k, v
 			case c < 6:
 				k := pool[e.r.Intn(len(pool))]
 				if e.r.Intn(2) == 0 {
-					err = real.Delete(tk.KeyBytes(k, 0))
+					err = real.Delete(rk(k))
 					ev["op"] = "del"
 				} else {
-					err = real.Update(tk.KeyBytes(k, 0), nil)
+					err = real.Update(rk(k), nil)
 					ev["op"] = "putempty"
 				}
 				ev["k"] = k
 			default:
 				// batch below / at / above the parallel threshold, deletions mixed in
-				m := []int{1, 3, 4, 5, 9, 17}[e.r.Intn(6)]
+				// (120 entries: more than 100 unhashed / uncommitted updates switch the hasher
+				// and the committer to their parallel mode)
+				m := []int{1, 3, 4, 5, 9, 17, 120}[e.r.Intn(7)]
 				ops := make([]tk.KV, m)
 				keys, vals := make([][]byte, m), make([][]byte, m)
 				for i := range ops {
@@ -104,7 +168,7 @@ func runRecord(e *env, path string, n, steps int) {
 					if e.r.Intn(4) == 0 {
 						ops[i].V = 0
 					}
-					keys[i], vals[i] = tk.KeyBytes(ops[i].K, 0), tk.ValBytes(ops[i].V)
+					keys[i], vals[i] = rk(ops[i].K), tk.ValBytes(ops[i].V)
 				}
 				err = real.UpdateBatch(keys, vals)
 				ev["op"], ev["ops"] = "batch", ops
@@ -118,7 +182,7 @@ func runRecord(e *env, path string, n, steps int) {
 			gets := []tk.KV{}
 			for g := 0; g < 3; g++ {
 				k := pool[e.r.Intn(len(pool))]
-				v, err := real.Get(tk.KeyBytes(k, 0))
+				v, err := real.Get(rk(k))
 				if err != nil {
 					e.sum.Violate(fmt.Sprintf("trace %d step %d Get: %v", t, s, err), tl.M{"event": ev})
 				}
@@ -151,7 +215,7 @@ func runRecord(e *env, path string, n, steps int) {
 						}
 					}
 				}
-				if real, err = trie.New(trie.TrieID(root), store); err != nil {
+				if real, err = open(root, store, sec); err != nil {
 					e.sum.Violate(fmt.Sprintf("trace %d step %d reopen: %v", t, s, err), tl.M{})
 					break
 				}
